@@ -56,6 +56,7 @@ func c01(c *core.Check) {
 	c01RepeatCounts(c)
 	c01RootStaysBlock(c)
 	c01NilCheckedThenUsed(c)
+	c01NestedSelectorBound(c)
 
 	p := c.Prog
 	r4 := c.Rule("R4", "no nil dereference the code itself anticipates: every method call through ComputedStyle.parentStyle (nil on the root element) is dominated by a nil / root test; no comma-ok type assertion to a pointer or interface discards its ok result and then dereferences the value without a nil test (module-wide)", 6)
